@@ -5,7 +5,7 @@
      internal/master/durable/state.go   (State, newState, lookup, verifyCuratorID)
      internal/master/durable/fsm.go     (Apply's read-only gate, RegisterCuratorCmd / RegisterTractserverCmd /
                                          NewPartitionCmd / SetReadOnlyModeCmd apply, getPartitions,
-                                         Snapshot + SnapshotRestore = gob decode INTO THE LIVE struct)
+                                         Snapshot + SnapshotRestore = gob decode into a fresh State that replaces the live one)
      internal/master/master.go          (registerCurator, curatorHeartbeat, newPartition with the volatile quota
                                          table, lookup through the volatile address table, registerTractserver)
      internal/curator/durable/fsm.go    (SetRegistrationCommand "first id wins", AddPartitionCommand,
@@ -69,9 +69,14 @@ Fixpoint get_parts_from (i : N) (l : list N) (q : N) : list N :=
 Definition get_partitions (s : mstate) (q : N) : list N := get_parts_from 0 (parts s) q.
 
 (* Snapshot = gob encoding of the struct: zero-valued FIELDS are not transmitted (an empty slice, a zero
-   counter, ReadOnly=false); SnapshotRestore decodes into the live struct, so an omitted field keeps the live
-   value.  A non-empty slice is transmitted with all its elements and replaces the live slice. *)
-Definition restore_into (live snap : mstate) : mstate :=
+   counter, ReadOnly=false).  Since fix ca0788b SnapshotRestore decodes into a FRESH (all-zero) State and replaces
+   the live one, so the restored state is exactly the snapshot whatever the live state was. *)
+Definition restore_into (live snap : mstate) : mstate := snap.
+
+(* The UNREPAIRED behaviour (before ca0788b, finding F7): decoding into the live struct, so an omitted field keeps
+   the live value.  A non-empty slice is transmitted with all its elements and replaces the live slice.  Kept only
+   for the REFUTED theorems about the unrepaired variant [step_merge]. *)
+Definition restore_merge (live snap : mstate) : mstate :=
   {| parts := match parts snap with [] => parts live | l => l end;
      next_c := if next_c snap =? 0 then next_c live else next_c snap;
      next_t := if next_t snap =? 0 then next_t live else next_t snap;
@@ -491,36 +496,37 @@ Definition step (w : world) (e : event) : world :=
 Definition run_from (w : world) (evs : list event) : world := fold_left step evs w.
 Definition run (evs : list event) : world := run_from w_init evs.
 
-(* The trigger of finding F7: a snapshot installed onto a live replica that is read-only while the snapshot is
-   not (gob omits ReadOnly=false), or a snapshot carrying a zero counter / empty table. *)
-Definition install_safe (live snap : mstate) : bool :=
-  implb (ro live) (ro snap) && negb (next_c snap =? 0) && negb (next_t snap =? 0)
-  && negb (match parts snap with [] => true | _ => false end).
-
-Definition event_safe (w : world) (e : event) : bool :=
+(* ---------- the unrepaired variant (finding F7, before ca0788b): the three restoring events merge ---------- *)
+Definition ev_install_merge (w : world) (j : nat) : world :=
+  if Nat.eqb j (w_leader w) then w else
+  match nth_error (w_reps w) j with
+  | None => w
+  | Some r =>
+      let r' := {| r_applied := length (w_log w); r_st := restore_merge (r_st r) (leader_st w) |} in
+      set_master w (w_log w) (upd_nth j r' (w_reps w)) (w_leader w) (w_mvol w) (h_cids w) (h_tsids w) (h_parts w)
+  end.
+Definition ev_failover_merge (w : world) : world :=
+  let lr := leader_rep w in
+  let r' := {| r_applied := r_applied lr; r_st := restore_merge m_init (r_st lr) |} in
+  set_master w (w_log w) (upd_nth (w_leader w) r' (w_reps w)) (w_leader w) [] (h_cids w) (h_tsids w) (h_parts w).
+Definition ev_snap_install_merge (w : world) (j : nat) : world :=
+  if Nat.eqb j (w_leader w) then w else
+  match nth_error (w_reps w) j, w_snap w with
+  | Some r, Some (idx, s) =>
+      if Nat.leb (r_applied r) idx then
+        let r' := {| r_applied := idx; r_st := restore_merge (r_st r) s |} in
+        set_master w (w_log w) (upd_nth j r' (w_reps w)) (w_leader w) (w_mvol w) (h_cids w) (h_tsids w) (h_parts w)
+      else w
+  | _, _ => w
+  end.
+Definition step_merge (w : world) (e : event) : world :=
   match e with
-  | EvInstall j =>
-      if Nat.eqb j (w_leader w) then true else
-      match nth_error (w_reps w) j with
-      | Some r => install_safe (r_st r) (leader_st w)
-      | None => true
-      end
-  | EvFailover => install_safe m_init (leader_st w)
-  | EvSnapInstall j =>
-      if Nat.eqb j (w_leader w) then true else
-      match nth_error (w_reps w) j, w_snap w with
-      | Some r, Some (idx, s) => if Nat.leb (r_applied r) idx then install_safe (r_st r) s else true
-      | _, _ => true
-      end
-  | _ => true
+  | EvInstall j => ev_install_merge w j
+  | EvFailover => ev_failover_merge w
+  | EvSnapInstall j => ev_snap_install_merge w j
+  | _ => step w e
   end.
-
-Fixpoint trace_safe_from (w : world) (evs : list event) : bool :=
-  match evs with
-  | [] => true
-  | e :: r => event_safe w e && trace_safe_from (step w e) r
-  end.
-Definition trace_safe (evs : list event) : bool := trace_safe_from w_init evs.
+Definition run_merge (evs : list event) : world := fold_left step_merge evs w_init.
 
 (* ================= wire format ================= *)
 Definition zN (z : Z) : N := Z.to_N z.
